@@ -129,6 +129,9 @@ def monitor(run):
 
 
 def replay(recipe):
+    if recipe.get('relabel'):
+        run_ = S.SimRun(recipe).run()
+        return None, [dict(desc=d, signature='recount', recipe=recipe) for d in list(monitor(run_))[:1]]
     return SP.replay(recipe, MASK, monitor, 'recount')
 
 
@@ -149,6 +152,18 @@ def run(ctx):
         st['runs_ending_with_a_suspension_in_flight'] += bool(run_.ticks and any(p['suspending'] for p in run_.ticks[-1]['pools']))
         for desc in monitor(run_):
             out['hits'].append(dict(desc=desc, signature='recount', recipe=recipe, gen='G-sim-preempt-cut'))
+            break
+    # monitor-only stream: a policy whose containers carry another priority label than their pipeline (the statistics
+    # per priority are about PIPELINES). Outside the model's schedulers, so no correspondence case is produced
+    for i in range(ctx.budget(40, 600)):
+        rng = ctx.case_rng('G-sim-relabel', i)
+        recipe = S.gen_sim(rng, algo=rng.choice(['naive', 'starter', 'overbook']), gen='G-sim-relabel')
+        recipe['relabel'] = 1
+        run_ = S.SimRun(recipe).run()
+        st['relabel_runs'] += 1
+        st['relabel_runs_with_completions'] += any(d['finished'] for d in run_.ticks)
+        for desc in monitor(run_):
+            out['hits'].append(dict(desc=desc, signature='recount', recipe=recipe, gen='G-sim-relabel'))
             break
     out['dist'] = dict(st)
     out['rule'] = ('whole run_simulator runs, all five shipped schedulers, runs of 0..200 ticks incl. runs in which nothing '
